@@ -92,7 +92,7 @@ theorem setState_ext (m0 : Nat) (s : St) (m st : Nat) : Ext m0 s (s.setState m s
 theorem changeState_pres (hC : NoCmds sc) (x : Ctx) (t : Trans) (d : Nat) (s : St) :
     PresR x.model (changeState sub sc cfg x t d s) s := by
   unfold changeState
-  cases cfg.state? t.source with
+  cases cfg.state? (s.stateOf x.model) with
   | none => exact PresR.err _ _ _
   | some src =>
     refine PresR.bind (callbacks_pres sub sc hC _ x _ s) ?_
